@@ -59,6 +59,13 @@ l = [{"t": 0, "a": 1, "b": -1}, {"t": 1, "a": 0}]
 case("LoDOpsTrace", "tail(0) accepted", {"l": l, "a": {"op": "tail", "n": 0}, "out": [], "cls": True, "err": ""}, "")
 case("LoDOpsTrace", "tail(0) returns all", {"l": l, "a": {"op": "tail", "n": 0}, "out": l, "cls": True, "err": ""}, "tail:wrong-number-of-items")
 case("LoDOpsTrace", "plain list returned", {"l": l, "a": {"op": "reverse"}, "out": l[::-1], "cls": False, "err": ""}, "reverse:result-not-a-ListOfDicts")
+# LoDJoin: split
+Ls = [{"lt": 0, "k": 0, "j": 0}, {"lt": 1, "k": 1, "j": 0}, {"lt": 2, "k": 0, "j": -1}]
+sp = {"L": Ls, "R": [], "a": {"kind": "split", "by": ["k"]}, "out": [], "cls": True, "err": "", "keys": [], "groups": [[0, 2], [1]]}
+case("LoDJoinTrace", "split accepted", sp, "")
+case("LoDJoinTrace", "split groups in sorted, not first-appearance order", dict(sp, groups=[[1], [0, 2]]), "split:not-the-partition")
+case("LoDJoinTrace", "split one key in two groups", dict(sp, groups=[[0], [1], [2]]), "split:not-the-partition")
+case("LoDJoinTrace", "split loses a position", dict(sp, groups=[[0], [1]]), "split:not-the-partition")
 # Agg
 ag = {"h": "mean", "a": {"dropna": True, "ddof": 0, "idx": 0, "q4": 2}, "kind": "float", "xs": [1, -99, 3], "obs": {"t": "num", "v": 288, "sq": -1}, "err": ""}
 case("AggTrace", "mean accepted", ag, "")
